@@ -163,11 +163,12 @@ pub fn minimise(env: &Env, start: MiniWorld, item: Option<Item>, d0: Divergence,
         c.bad.argv = r.argv.clone();
         attempt!("reset argv", c);
     }
-    if cur.bad.hostname != r.hostname || cur.bad.uid != r.uid || cur.bad.ncpu != r.ncpu {
+    if cur.bad.hostname != r.hostname || cur.bad.uid != r.uid || cur.bad.ncpu != r.ncpu || cur.bad.exe != r.exe {
         let mut c = cur.clone();
         c.bad.hostname = r.hostname.clone();
         c.bad.uid = r.uid;
         c.bad.ncpu = r.ncpu;
+        c.bad.exe = r.exe.clone();
         attempt!("reset hostname/uid/ncpu", c);
     }
     if cur.bad.fs_map != r.fs_map {
